@@ -1,20 +1,7 @@
 //! vcheck: property-based checks of gneiss-mqtt.  `vcheck <Cxx> [--tier quick|thorough] [--seed N] [--replay file]`
 #![allow(dead_code, unused_variables, clippy::all)]
 
-mod abs;
-mod c02;
-mod c03;
-mod c16;
-mod clientsim;
-mod faithful;
-mod gen;
-mod model;
-mod mon;
-mod panichook;
-mod props_engine;
-mod real;
-mod runner;
-mod sim;
+use vcheck::{c02, c03, c16, clientsim, faithful, panichook, props_engine, real, runner};
 
 use runner::{run_property, RunOptions, Tier};
 
